@@ -251,7 +251,9 @@ Proof.
   destruct (has_cap (norm v)) eqn:Hc; [|reflexivity]. rewrite (canon_cap_none v Hc) in E. discriminate E.
 Qed.
 
-(* the three claims about Canonicalize itself, unconditional *)
+(* consequences for Canonicalize itself.  Premises as stated: nocap / good v are hypotheses about the
+   denoted value (not derived from den), value preservation is w.r.t. the specification's strict
+   decoder cdecode (not the library reader), the third needs the read-back value as a hypothesis *)
 Theorem canon_m_layout_independent : forall fuel c fx m1 rl1 s1 v1 m2 rl2 s2 v2 bs1 bs2 r1 r2,
   all_cfixed fx -> cfg_strict c = true -> msg_ok m1 -> msg_ok m2 -> wf_ptr m1 s1 -> wf_ptr m2 s2 ->
   (p_valid s1 = true -> p_kind s1 = KStruct /\ DataSize (p_size s1) mod 8 = 0) ->
@@ -279,7 +281,11 @@ Proof.
   apply canon_decodes_equal; assumption.
 Qed.
 
-Theorem canon_m_idempotent : forall fuel c fx m rl s v bs r m' rl' s' v' bs' r',
+(* NOT idempotence of Canonicalize by itself: [m'], [s'], [v'] are hypotheses -- a second message whose
+   struct denotes a value value_eqs to v (what reading the output back would give IF the reader model
+   denotes the canonical bytes as a value value_eqs to v: that link, cdecode/cparse vs den on the output
+   bytes, is not proved; the run checks it on every case, flags R and I) *)
+Theorem canon_m_idempotent_given_readback : forall fuel c fx m rl s v bs r m' rl' s' v' bs' r',
   all_cfixed fx -> cfg_strict c = true -> msg_ok m -> msg_ok m' -> wf_ptr m s -> wf_ptr m' s' ->
   (p_valid s = true -> p_kind s = KStruct /\ DataSize (p_size s) mod 8 = 0) ->
   (p_valid s' = true -> p_kind s' = KStruct /\ DataSize (p_size s') mod 8 = 0) ->
@@ -325,4 +331,65 @@ Example canon_m_cap_nonvacuous :
             fst (canonicalize cfg0 repaired 20 msg_cap 1000000 root_cap) = KErr.
 Proof.
   eexists. split; [apply (vdec_den 10 1000000); vm_compute; reflexivity|]. split; vm_compute; reflexivity.
+Qed.
+
+(* ------------------------------------------------------------------ S1: sub-word data sections *)
+(* PREMISE of every theorem above: the struct handed to Canonicalize has a data section of whole
+   words ([DataSize (p_size s) mod 8 = 0]).  That holds for every struct the reader hands out
+   (readPtr_aligned) and for struct-list elements, but NOT for [List.Struct(i)] of a 1-, 2- or
+   4-byte list.  For those the code as found was WRONG (the empty struct came out); the repair
+   (repo commit 0fb41d1) is modelled by [canonicalize2 true].  On the premise the two agree: *)
+Lemma css_sub_aligned b m s sz : DataSize (p_size s) mod 8 = 0 -> css_sub b m s sz = Ok sz.
+Proof.
+  intros H. unfold css_sub. cbv zeta. rewrite H. change (0 =? 0) with true. cbn [negb]. rewrite !Bool.andb_false_r. reflexivity.
+Qed.
+
+Theorem canonicalize2_aligned : forall c fx b fuel m rl s,
+  (p_valid s = true -> DataSize (p_size s) mod 8 = 0) ->
+  canonicalize2 c fx b fuel m rl s = canonicalize c fx fuel m rl s.
+Proof.
+  intros c fx b fuel m rl s H. unfold canonicalize2, canonicalize.
+  destruct (new_message ASingle [] 0) as [m0| |]; try reflexivity.
+  destruct (p_valid s) eqn:Hv; cbn [negb]; [|reflexivity]. specialize (H eq_refl).
+  destruct (canonicalStructSize (cx_farnull fx) (cfg_strict c) m s) as [sz0| |]; cbn [bind]; try reflexivity.
+  rewrite (css_sub_aligned b m s sz0 H). reflexivity.
+Qed.
+
+(* hence [T2] for the repaired Canonicalize, same premise *)
+Theorem canon_m_correct2 : forall fuel c fx m rl s v bs rl',
+  all_cfixed fx -> cfg_strict c = true -> msg_ok m -> wf_ptr m s ->
+  (p_valid s = true -> p_kind s = KStruct /\ DataSize (p_size s) mod 8 = 0) ->
+  den true m 0 [] s v ->
+  canonicalize2 c fx true fuel m rl s = (KOk bs, rl') -> canon v = Some bs.
+Proof.
+  intros fuel c fx m rl s v bs rl' Hf Hs M W K D C.
+  rewrite canonicalize2_aligned in C by (intros Hv; exact (proj2 (K Hv))).
+  eapply canon_m_correct; eassumption.
+Qed.
+
+(* outside the premise: element 1 (value 6) of the byte list [5;6;7], and element 0 of the
+   2-byte list [0x0807] and of the 4-byte list [0xdeadbeef], as the struct to canonicalise.
+   As found the empty struct comes out (not the canonical form of the denoted value: REFUTED);
+   repaired, the bytes are canon of the denoted value. *)
+Definition msg_sub : segs :=
+  [wbytes [struct_word 0 0 3; list_word 2 2 3; list_word 2 3 1; list_word 2 4 1; 460037; 2055; 3735928559]].
+Definition member_sub (i j : Z) : Ptr :=
+  match fst (select_member cfg0 msg_sub 1000000 i j) with Ok q => q | _ => nullPtr end.
+
+Example canon_subword_refuted :
+  forall i j, (i, j) = (0, 1) \/ (i, j) = (1, 0) \/ (i, j) = (2, 0) ->
+  let e := member_sub i j in
+  wf_ptr msg_sub e /\ p_valid e = true /\ p_kind e = KStruct /\ DataSize (p_size e) mod 8 <> 0 /\
+  exists v bs, den true msg_sub 0 [] e v /\ canon v = Some bs /\
+    fst (canonicalize2 cfg0 repaired false 20 msg_sub 1000000 e) = KOk [252; 255; 255; 255; 0; 0; 0; 0] /\
+    bs <> [252; 255; 255; 255; 0; 0; 0; 0] /\
+    fst (canonicalize2 cfg0 repaired true 20 msg_sub 1000000 e) = KOk bs.
+Proof.
+  intros i j [E|[E|E]]; inversion E; subst; cbv zeta.
+  all: split; [intros _; vm_compute; repeat split; discriminate|].
+  all: split; [reflexivity|]. all: split; [reflexivity|]. all: split; [vm_compute; discriminate|].
+  all: eexists; eexists.
+  all: split; [apply (vdec_den 10 1000000); vm_compute; reflexivity|].
+  all: split; [vm_compute; reflexivity|]. all: split; [vm_compute; reflexivity|].
+  all: split; [vm_compute; discriminate|]. all: vm_compute; reflexivity.
 Qed.
